@@ -64,6 +64,8 @@ structure Canon where
   incs : List (Nat × Nat)
   nextInc : Nat
   lastSel : Option Nat
+  /-- the flow selected by the most recent client datagram line, if it admitted one -/
+  selAt : Option Nat := none
 
 def Canon.incOf (c : Canon) (f : Nat) : String :=
   match c.incs.find? (·.1 = f) with
@@ -77,7 +79,7 @@ def outStr (c : Canon) (sel : Option Nat := none) : Out → Canon × String
   | .selectBackend f cl k =>
     let (seen', i) := keyIndex c.seen k
     ({ c with seen := seen', incs := (f, c.nextInc) :: c.incs.filter (·.1 ≠ f), nextInc := c.nextInc + 1,
-              lastSel := some f },
+              lastSel := some f, selAt := some f },
      s!"sel {f} {if cl.isEmpty then "-" else cl} k{i}")
   | .openUpstream f b => (c, s!"open {f} {addrStr b}")
   | .sendToBackend f dst p =>
@@ -158,13 +160,16 @@ def emptyCanon : Canon := { seen := [], ghost := false, incs := [], nextInc := 0
 
 /-- rig sugar (driver level only): `rr <backend-id> <addr> <now>` resolves the most
     recently selected flow; `bi <incarnation> <hex> <now>` is a backend datagram on
-    the flow admitted `incarnation`-th (an unused id when that flow is gone) -/
+    the flow admitted `incarnation`-th (an unused id when that flow is gone); `ra` is
+    the shell aborting the flow admitted by the most recent client datagram (no backend
+    for the cluster, or the upstream socket could not be opened) -/
 def parseSugar (c : Canon) (ws : List String) : Option Op :=
   match ws with
   | ["rr", bid, a, now] =>
     match parseAddr a, now.toNat? with
     | some a, some now => some (.resolved (c.lastSel.getD 999999) bid a now)
     | _, _ => none
+  | ["ra"] => some (.abort (c.selAt.getD 999999))
   | ["bi", inc, p, now] =>
     match inc.toNat?, hexToBytes p, now.toNat? with
     | some inc, some p, some now =>
@@ -185,11 +190,19 @@ def stepLine (st : DState) (line : String) : DState × List String :=
     | _, _, _ => (st, ["bad-op"])
   | ["dump"] => (st, [dump st.s])
   | ["ghost", "on"] => ({ st with c := { st.c with ghost := true } }, ["ghost"])
+  | ["shellreset"] => ({ st with sh := Shell.new listener0, cur := none }, ["shellreset"])
   | ws =>
     match (parseOp ws).orElse (fun _ => parseSugar st.c ws) with
     | some op =>
       let (y, outs, routes) := Sys.step true { s := st.s, sh := st.sh, cur := st.cur } op
-      let (c', str) := outsStr st.c outs routes
+      -- `selAt` lives from the client datagram that admits a flow to the next client datagram
+      let c0 := match op with
+        | .client _ _ _ => { st.c with selAt := none }
+        | _ => st.c
+      let (c1, str) := outsStr c0 outs routes
+      -- an admission aborted by the shell before any datagram went out never shows on the wire: it does
+      -- not count as an incarnation for the rig
+      let c' := if ws = ["ra"] ∧ st.c.selAt.isSome then { c1 with nextInc := c1.nextInc - 1, selAt := none } else c1
       ({ s := y.s, c := c', sh := y.sh, cur := y.cur }, [str ++ " | " ++ summary y.s])
     | none => (st, ["bad-op"])
 
